@@ -204,7 +204,9 @@ def rewardsHook (s : St) : M St :=
       let rp := if rp0.mod = 0 then { rp0 with mod := 1 } else rp0
       let d ← isDistributionBlock s.height rp.start rp.mod
       let cur ← blockDistribution rp
-      let bd ← Uint.add s.accu cur
+      -- fix F10: entitlement left over from an earlier period is dropped when a period starts
+      let accu := if s.height = (rp.start : Int) then 0 else s.accu
+      let bd ← Uint.add accu cur
       if d then do
         let s1 ← distributeDepthRewards s rp bd
         pure { s1 with accu := 0 }
